@@ -2,10 +2,12 @@ SPECIFICATION Spec
 CONSTANTS
   MaxNodes = 3
   MinEmit = 1
-  Depths = {99, 0, 1, 2}
+  Depths = {99, 1}
   Devs = {1}
   RootMode = "first"
   MaxRoots = 1
   OptMode = "full"
   ExactSize = 0
+  NeedDev2 = FALSE
+  OptSample = 0
 INVARIANTS ModelOK Emitted
